@@ -1,4 +1,4 @@
-use crate::internal::{consts, MiniAllocator, ObjType, SectorInit};
+use crate::internal::{consts, MiniAllocator, ObjType, SectorInit, Version};
 use std::io::{self, BufRead, Read, Seek, SeekFrom, Write};
 #[cfg(not(cfb_verif))]
 use std::sync::{Arc, RwLock, Weak};
@@ -86,9 +86,12 @@ impl<F: Read + Write + Seek> Stream<F> {
     /// case the position becomes the new end of the stream.
     pub fn set_len(&mut self, size: u64) -> io::Result<()> {
         if size != self.total_len {
+            let minialloc = self.minialloc()?;
+            // Refuse an impossible length before touching anything, so that
+            // a refused call doesn't write back buffered data either.
+            check_stream_len(minialloc.read().unwrap().version(), size)?;
             let new_position = self.current_position().min(size);
             self.flush_changes()?;
-            let minialloc = self.minialloc()?;
             resize_stream(
                 &mut minialloc.write().unwrap(),
                 self.stream_id,
@@ -430,6 +433,22 @@ fn zero_fill<W: Write + Seek>(
     Ok(())
 }
 
+/// A stream can't have more sectors than there are sector IDs, nor a length
+/// that doesn't fit into the directory entry's length field.
+fn check_stream_len(version: Version, stream_len: u64) -> io::Result<()> {
+    let max_stream_len = version.stream_len_mask().min(
+        (consts::MAX_REGULAR_SECTOR as u64 + 1) * version.sector_len() as u64,
+    );
+    if stream_len > max_stream_len {
+        invalid_input!(
+            "Cannot resize stream to {} bytes (the maximum is {} bytes)",
+            stream_len,
+            max_stream_len
+        );
+    }
+    Ok(())
+}
+
 /// If `new_stream_len` is less than the stream's current length, then the
 /// stream will be truncated.  If it is greater than the stream's current size,
 /// then the stream will be padded with zero bytes.
@@ -443,19 +462,7 @@ fn resize_stream<F: Read + Write + Seek>(
         debug_assert_eq!(dir_entry.obj_type, ObjType::Stream);
         (dir_entry.start_sector, dir_entry.stream_len)
     };
-    // A stream can't have more sectors than there are sector IDs, nor a
-    // length that doesn't fit into the directory entry's length field.
-    let version = minialloc.version();
-    let max_stream_len = version.stream_len_mask().min(
-        (consts::MAX_REGULAR_SECTOR as u64 + 1) * version.sector_len() as u64,
-    );
-    if new_stream_len > max_stream_len {
-        invalid_input!(
-            "Cannot resize stream to {} bytes (the maximum is {} bytes)",
-            new_stream_len,
-            max_stream_len
-        );
-    }
+    check_stream_len(minialloc.version(), new_stream_len)?;
     let new_start_sector = if old_start_sector == consts::END_OF_CHAIN {
         // Case 1: The stream has no existing chain.  We will allocate a new
         // chain that is all zeroes.
